@@ -50,13 +50,13 @@ fn main() {
             NCfg { accepting: false, addrs: 2, net_connects: 2, remote_sends: 1, net_sends: 1, advances: 2, drops: 1, garbage: 0, ..base.clone() },
             NCfg { defer: true, addrs: 2, remote_sends: 1, net_sends: 1, advances: 2, disconnects: 1, ..base.clone() },
             NCfg { defer: true, addrs: 3, remote_sends: 0, net_sends: 1, advances: 2, ..base.clone() },
-            NCfg { send_faults: true, addrs: 3, disconnects: 2, remote_sends: 1, net_sends: 1, advances: 1, ..base.clone() },
+            NCfg { send_faults: true, addrs: 3, disconnects: 2, remote_sends: 0, net_sends: 1, advances: 1, ..base.clone() },
             NCfg { wraps: 2, addrs: 4, remote_sends: 0, net_sends: 0, advances: 0, disconnects: 1, ..base.clone() },
         ],
     };
     let mut outcomes = Vec::new();
     for cfg in cfgs {
-        let o = vp_net::explore_net(cfg, &run);
+        let o = vp_net::explore_net_mode(cfg, &run, run.tier == Tier::Thorough);
         run.class(&format!("cfg:{}", o.label), || json!({"states": o.states, "stats": o.stats}));
         let stop = o.violated;
         outcomes.push(o);
@@ -69,7 +69,7 @@ fn main() {
     run.assume("a connection request is decided (accept / reject / ignore) either at once on the Connect event or, in the defer configurations, at any later step while the peer is still unconnected; a retransmitted request that reaches an undecided peer makes its connection answer by itself (the reference connection does the same) and the decision is then moot");
     run.assume("connect requests from unknown addresses are the two forms real clients send (with and without the DDNet token extension)");
     run.finish(
-        "explicit-state exploration (stateright BFS) of one real Net + per-address real remote connections + per-address reference connections; after every step events (peer ids mapped to addresses), outgoing datagrams with destination, needs_tick and the complete per-peer state must equal the references; peer ids must be distinct, also after the 32-bit peer id counter has come round onto live peers (CounterWrap)",
+        "explicit-state exploration (stateright; breadth-first at the quick tier, depth-first at the thorough tier) of one real Net + per-address real remote connections + per-address reference connections; after every step events (peer ids mapped to addresses), outgoing datagrams with destination, needs_tick and the complete per-peer state must equal the references; peer ids must be distinct, also after the 32-bit peer id counter has come round onto live peers (CounterWrap)",
         true,
     );
 }
